@@ -95,8 +95,8 @@ ElabNode(p, os, dia, id) ==
     [] n.op = "Z"      -> plain(IF dia = "net" THEN "endz" ELSE "end")
     [] n.op = "z"      -> plain("end")
     [] n.op = "G"      -> plain("start")
-    [] n.op = "b"      -> plain(IF dia = "ecma" THEN "ewb" ELSE "wb")
-    [] n.op = "B"      -> plain(IF dia = "ecma" THEN "newb" ELSE "nwb")
+    [] n.op = "b"      -> plain(IF dia = "ecma" THEN "ewb" ELSE IF dia = "re2" THEN "awb" ELSE "wb")
+    [] n.op = "B"      -> plain(IF dia = "ecma" THEN "newb" ELSE IF dia = "re2" THEN "nawb" ELSE "nwb")
     [] n.op = "grp"    -> Sem("grp", <<>>, FALSE, "", FALSE, n, GroupNumOf(p, os, id))
     [] n.op = "opt"    -> Sem("grp", <<>>, FALSE, "", FALSE, n, 0)
     [] n.op = "optset" -> plain("empty")
